@@ -305,6 +305,13 @@ pub fn judge_doc(doc: &Doc, opts: &RenderOpts, rendered: &Rendered, who: &str) -
             return v;
         }
         v.c("anchors_checked", 1);
+        if !raw.is_ascii()
+            && !raw.contains('\n')
+            && !matches!(&items[ii], It::Atom { kind: Ak::Comment, .. })
+            && rendered.anchors.get(k + 1).is_some_and(|nx| nx.dst_line == a.dst_line)
+        {
+            v.c("anchored_tokens_with_multibyte_text_followed_by_tokens", 1);
+        }
         if raw.contains('\n') {
             v.c("multi_line_anchors_checked", 1);
         }
@@ -578,6 +585,17 @@ fn sabotage(s: &Sab, rec: &mut veryl_pretty::verif::RenderRecord) {
                 rec.rendered.anchors[n / 2].dst_column += 1;
             }
         }
+        Some("mb_cols") => {
+            // what a renderer that advances by bytes instead of characters would record
+            let mut extra: std::collections::HashMap<u32, u32> = Default::default();
+            for a in rec.rendered.anchors.iter_mut() {
+                let add = *extra.get(&a.dst_line).unwrap_or(&0);
+                a.dst_column += add;
+                if !a.text.contains('\n') && !a.text.starts_with("//") && !a.text.starts_with("/*") {
+                    *extra.entry(a.dst_line).or_insert(0) += (a.text.len() - a.text.chars().count()) as u32;
+                }
+            }
+        }
         Some("ifbreak") => {
             // put a trailing comma before a `)` of a list that was rendered flat; the place is
             // searched so that the insertion lands on an (absent) IfBreak(",") site
@@ -744,6 +762,15 @@ pub fn main(args: Args) {
             let (name, text) = if as_is {
                 let f = &corpus[j as usize];
                 (format!("corpus:{}:{}", f.kind, f.name), f.text.clone())
+            } else if (j - n) % 3 == 2 {
+                let mut g = Rng::for_case(seed, "C28", j);
+                let t = crate::alignsyn::string_module(&mut g);
+                if g.bool() {
+                    (format!("strsyn#{}", j - n), t)
+                } else {
+                    let o = LayoutOpts::random(&mut g);
+                    (format!("strsyn+layout#{}", j - n), layout(&t, &mut g, &o))
+                }
             } else {
                 let f = &corpus[((j - n) % n) as usize];
                 let mut g = Rng::for_case(seed, "C28", j);
@@ -757,6 +784,9 @@ pub fn main(args: Args) {
                 }
                 if g.chance(1, 3) {
                     t = mutate_trailing_commas(&t, &mut g, 300, 500);
+                }
+                if g.bool() {
+                    t = crate::alignsyn::mutate_strings(&t, &mut g, 700);
                 }
                 (format!("layout:{}:{}#{}", f.kind, f.name, (j - n) / n), t)
             };
@@ -782,6 +812,7 @@ pub fn main(args: Args) {
         ("atoms", 75_000),
         ("anchors_checked", 30_000),
         ("multi_line_anchors_checked", 80),
+        ("anchored_tokens_with_multibyte_text_followed_by_tokens", 150),
         ("lines_whose_rendering_was_observed", 15_000),
         ("groups_observed_broken", 1_000),
         ("groups_observed_flat", 2_000),
